@@ -195,9 +195,42 @@ FLAG_POOL = ["''", "'i'", "'s'", "'m'", "'x'", "'q'", "'imsxq'", "'j'", "'ii'", 
 REPLACEMENT_POOL = ["''", "'$1'", "'$0'", "'\\$'", "'$'", "'\\'", "'$9'", "'x'", "'\\\\'", "'$a'", "'$10'"]
 PICTURE_POOL = [a for a in ARG_POOL if a.startswith("'") and ('[' in a or '#' in a or '0' in a or a in ("'Ww'", "'w'", "'i'", "'A'", "'a'",
                                                                                                            "'I'", "'1;o'", "'%'"))]
-NUMBER_EDGE_POOL = ['0', '-0.0e0', '0.0', '1', '-1', '0.5', '1.5', '-2.5', '1e-320', '1e308', '123456789.123456789', '1234567',
+NUMBER_EDGE_POOL = ['0', '-0.0e0', '0.0', '0e0', '1', '-1', '0.5', '1.5', '-2.5', '1e-320', '1e308', '123456789.123456789', '1234567',
                     'xs:double("NaN")', 'xs:double("INF")', 'xs:float("-INF")', '12345678901234567890123456789', '0.000001',
                     '1e21', '-1e-7', '100', '999999999999999999999', 'xs:float("1.5")', 'xs:decimal("1.005")']
+
+
+EXP_PICTURES = ["'0.0e0'", "'0.0#e00'", "'#.#e0'", "'00e00'", "'0e0'", "'0.00e00;-0e0'", "'#e0'", "'0.0e0%'", "'1e1'", "'0,0.0e0'"]
+DATE_PICTURES = [a for a in ARG_POOL if a.startswith("'[")] + ["'[Y0001]-[M01]-[D01]T[H01]:[m01]:[s01]'", "'[MNn] [D1o], [Y]'",
+                                                               "'[FNn,*-3]'", "'[Y]['", "'[]'", "'[Q]'", "'[M99]'", "'[D٠١]'"]
+FORMAT_VALUES = {
+    'format-number': NUMBER_EDGE_POOL, 'format-integer': [x for x in NUMBER_EDGE_POOL if re.match(r'^-?\d+$', x)] + ['-5', '11', '4000'],
+    'format-date': ['xs:date("2000-01-01")', 'xs:date("-0001-12-31+14:00")', 'xs:date("2024-02-29Z")', '()'],
+    'format-dateTime': ['xs:dateTime("9999-12-31T23:59:59.999Z")', 'xs:dateTime("2000-02-29T12:00:00-05:00")', '()'],
+    'format-time': ['xs:time("24:00:00")', 'xs:time("12:30:00.5+01:00")', 'xs:time("00:00:00Z")'],
+}
+
+
+def format_source(rng):
+    """Formatting functions over a grid of edge values and pictures (exponents, grouping, optional digits, ordinals)."""
+    f = rng.choice(sorted(FORMAT_VALUES))
+    value = rng.choice(FORMAT_VALUES[f])
+    if f == 'format-number':
+        pic = rng.choice(EXP_PICTURES + [a for a in PICTURE_POOL if not a.startswith("'[")])
+    elif f == 'format-integer':
+        pic = rng.choice(["'1'", "'01'", "'a'", "'A'", "'i'", "'I'", "'w'", "'W'", "'Ww'", "'1;o'", "'w;o'", "'#,##0'", "'0,000'",
+                          "'١'", "'一'", "'α'", "'1;c'", "'Ww;o(-e)'", "'00,0,00'", "'#'", "''", "';'", "'a;o'", "'1(x)'"])
+    else:
+        pic = rng.choice(DATE_PICTURES)
+    extra = ''
+    if f != 'format-number' and f != 'format-integer' and rng.random() < 0.3:
+        extra = ', %s, %s, %s' % (rng.choice(["'en'", "'it'", "'de'", "'zz'", '()']), rng.choice(["'AD'", "'ISO'", "'OS'", "'Q{u}x'", '()']),
+                                  rng.choice(["'Europe/Rome'", "'us'", "'xx'", '()']))
+    elif f == 'format-integer' and rng.random() < 0.3:
+        extra = ', %s' % rng.choice(["'en'", "'it'", "'de'", "'fr'", "'zz'", '()'])
+    elif f == 'format-number' and rng.random() < 0.2:
+        extra = ', %s' % rng.choice(["'nope'", '()', "'Q{u}f'"])
+    return '%s(%s, %s%s)' % (f, value, pic, extra)
 
 
 def typed_pool(name, index, declared, version):
@@ -342,7 +375,9 @@ def opcall_source(rng, version='3.1'):
 
 
 def valid_source(rng):
-    k = rng.randrange(13)
+    k = rng.randrange(14)
+    if k == 13:
+        return format_source(rng)
     if k >= 11:
         return opcall_source(rng, rng.choice(['1.0', '2.0', '3.0', '3.1', '3.1', '3.1']))
     if k >= 8:
